@@ -29,13 +29,36 @@ type c16Case struct {
 	Closed bool   `json:"closed"` // properly closed (with a scalar leaf) or left open
 	Limit  uint32 `json:"limit"`
 	Via    string `json:"via"` // detect | json | geo | ndjson
+	// SameAsPad0: also require the verdict to equal the verdict of the same nesting without padding
+	SameAsPad0 bool `json:"same_as_pad0,omitempty"`
 	// Primer: the case that ran immediately before this one in the same process (one level);
 	// a replay runs it first, so two-step histories through pooled parser state reproduce.
 	Primer *c16Case `json:"primer,omitempty"`
 }
 
+// shapes 6-8 are WIDE, not deep: one container with Depth members (nesting 2). Nothing in
+// them may make recursion (and with it the stack) grow with their size.
+func c16Wide(shape int) bool { return shape >= 6 }
+
 func c16Build(c c16Case) []byte {
 	pad := strings.Repeat(" ", c.Pad)
+	if c16Wide(c.Shape) {
+		unit := []string{"\"k\":{}," + pad, "[]," + pad, "\"k\":1," + pad}[c.Shape-6]
+		open, last := "{", "\"z\":1}"
+		if c.Shape == 7 {
+			open, last = "[", "1]"
+		}
+		var sb strings.Builder
+		sb.Grow(c.Depth*len(unit) + 16)
+		sb.WriteString(open)
+		for i := 1; i < c.Depth; i++ {
+			sb.WriteString(unit)
+		}
+		if c.Closed {
+			sb.WriteString(last)
+		}
+		return []byte(sb.String())
+	}
 	if c.Shape >= 3 {
 		// a COMPLETE sibling precedes the nested container at every level
 		unit := []string{"[0," + pad, "[[]," + pad, "{\"a\":1," + pad + "\"k\":" + pad}[c.Shape-3]
@@ -110,13 +133,27 @@ func c16Check(c c16Case) vfResult {
 	isJSON := c16Run(c, x)
 	runtime.ReadMemStats(&ms1)
 	r.Labels = append(r.Labels, fmt.Sprintf("via-%s", c.Via), fmt.Sprintf("json=%v", isJSON))
-	if c.Depth >= 1000000 && isJSON {
+	nesting := c.Depth
+	if c16Wide(c.Shape) {
+		nesting = 2
+		r.Labels = append(r.Labels, "wide")
+	}
+	if nesting >= 1000000 && isJSON {
 		r.Err = fmt.Errorf("a nesting bomb of depth %d (shape %d, closed=%v, limit %d, via %s) is reported as JSON", c.Depth, c.Shape, c.Closed, c.Limit, c.Via)
 	}
-	if c.Depth <= 4096 && c.Closed && c.Via != "geo" && !isJSON && (c.Limit == 0 || int64(c.Limit) >= int64(len(x))) {
+	if nesting <= 4096 && c.Closed && c.Via != "geo" && !isJSON && (c.Limit == 0 || int64(c.Limit) >= int64(len(x))) {
 		r.Err = fmt.Errorf("properly closed nesting of depth %d (shape %d, pad %d, via %s) is not reported as JSON", c.Depth, c.Shape, c.Pad, c.Via)
 	}
 	r.Nontrivial = c.Depth > 4096
+	if c.SameAsPad0 && r.Err == nil && c.Pad > 0 {
+		// the cap is fixed: white space between the levels (a longer input) changes nothing
+		c0 := c
+		c0.Pad, c0.SameAsPad0, c0.Primer = 0, false, nil
+		if base := c16Run(c0, c16Build(c0)); base != isJSON {
+			r.Err = fmt.Errorf("nesting of depth %d (shape %d, via %s, limit %d): with %d spaces between the levels (%d bytes) json=%v, without them (%d bytes) json=%v - the depth cap depends on the input size", c.Depth, c.Shape, c.Via, c.Limit, c.Pad, len(x), isJSON, len(c16Build(c0)), base)
+		}
+		r.Labels = append(r.Labels, "size-independence")
+	}
 	if ms1.StackInuse > ms0.StackInuse {
 		if d := int64(ms1.StackInuse - ms0.StackInuse); d > c16MaxStackGrowth {
 			c16MaxStackGrowth = d
@@ -185,6 +222,44 @@ func TestVerif_C16(t *testing.T) {
 							}
 						}
 					}
+				}
+			}
+		}
+	}
+	// the cap does not move with the size of the input: the same nesting, 4-9 MB long
+	for i, d := range []int{4097, 4300, 6000, 9000, 20000, 3000, 4096, 12000} {
+		if i%nsh != sh || t.Failed() {
+			continue
+		}
+		for shape := 0; shape < 3; shape++ {
+			for _, via := range []string{"json", "detect"} {
+				c := c16Case{Shape: shape, Depth: d, Pad: 4500000/d + 1, Closed: true, Limit: 0, Via: via, SameAsPad0: true}
+				if shape == 0 {
+					c.Pad *= 2
+				}
+				r := c16Check(c)
+				vfStats.record(r, func() any { return c })
+				if r.Err != nil {
+					vfEnumFail(t, "C16", "bombs", c, r.Err)
+					return
+				}
+			}
+		}
+	}
+	// wide containers: 300000 - 3000000 members in ONE object / array
+	for i, n := range []int{300000, 1000000, 3000000, 300000, 1000000, 2000000} {
+		if (i+3)%nsh != sh || t.Failed() {
+			continue
+		}
+		for shape := 6; shape <= 8; shape++ {
+			for _, closed := range []bool{true, false} {
+				c := c16Case{Shape: shape, Depth: n, Closed: closed, Limit: []uint32{0, 1}[i/3], Via: []string{"json", "detect", "geo"}[i%3]}
+				r := c16Check(c)
+				r.Nontrivial = true
+				vfStats.record(r, func() any { return c })
+				if r.Err != nil {
+					vfEnumFail(t, "C16", "bombs", c, r.Err)
+					return
 				}
 			}
 		}
